@@ -54,7 +54,8 @@ theorem lift_branches_30_25 (w : BitVec 32) (addr : Nat) {v : Nat} (hc : fld w 3
   have h5 : fld w 28 24 ≠ 0b01010 := by intro h; unfold A64.fld at h hc; omega
   have h6 : ¬ (fld w 29 27 = 0b111 ∧ (!bit w 25) = true) := by intro h; unfold A64.fld at h hc; omega
   have h36 : fld w 28 23 ≠ 0b100100 := by intro h; unfold A64.fld at h hc; omega
-  exact lift_branches_of w addr hnop h1 h3 h4 h5 h6 h36
+  have h27 : ¬ (fld w 27 27 = 1 ∧ fld w 25 25 = 0) := by intro h; unfold A64.fld at h hc; omega
+  exact lift_branches_of w addr hnop h1 h3 h4 h5 h6 h36 h27
 
 theorem cbz_agrees (w : BitVec 32) (addr : Nat) (r : BTR) (hc : fld w 30 25 = 0b011010)
     (h : lift w addr = some r) (σ : State) (s : A64.St) (ha : Abs σ s)
